@@ -626,6 +626,9 @@ impl RealLexer {
                 return RealRun { toks, end: RealEnd::Cap, calls };
             }
             calls += 1;
+            // arms the cfg(lalrpop_verif) hook of lalrpop-util/src/lexer.rs for this call: a loop
+            // iteration inside `next` that starts where the previous one started panics
+            lalrpop_util::lexer::verif_reset();
             match m.next() {
                 None => return RealRun { toks, end: RealEnd::Eof, calls },
                 Some(Err(ParseError::InvalidToken { location })) => {
@@ -640,6 +643,7 @@ impl RealLexer {
                     if lo == hi {
                         // empty token: is the very same token returned again?
                         calls += 1;
+                        lalrpop_util::lexer::verif_reset();
                         match m.next() {
                             Some(Ok((lo2, Token(k2, _), hi2))) if lo2 == lo && hi2 == hi && k2 == k => {
                                 toks.push((k, lo, hi));
@@ -701,6 +705,12 @@ pub fn progress_check(real: &RealLexer, input: &str) -> Result<Progress, (String
             return Err((
                 "C08/lexer/no-progress".into(),
                 format!("lexer made {} calls on an input of {} bytes without finishing", run.calls, input.len()),
+            ))
+        }
+        RealEnd::Panic(m) if m.contains("lalrpop_verif: lexer loop made no progress") => {
+            return Err((
+                "C08/lexer/spins-inside-next".into(),
+                format!("one call of the built-in lexer's next() never returns on {input:?}: two iterations of its loop started at the same offset ({m}); the lexer state is (text, offset) only"),
             ))
         }
         RealEnd::Panic(m) => {
